@@ -66,6 +66,12 @@ func (fc *FnCtx) callGuards(c *ssa.CallCommon, args []Val, st *State) {
 			vals[fmt.Sprintf("arg%d", i)] = t
 			typs[fmt.Sprintf("arg%d", i)] = c.Args[i].Type()
 		}
+		// argNconst: the argument is a compile-time constant (e.g. a literal format string)
+		if i < len(c.Args) {
+			_, isC := c.Args[i].(*ssa.Const)
+			vals[fmt.Sprintf("arg%dconst", i)] = fc.tb.Bool(isC)
+			typs[fmt.Sprintf("arg%dconst", i)] = types.Typ[types.Bool]
+		}
 		// argNv: the concrete value behind an argument that is converted to an interface at the call
 		if i < len(c.Args) {
 			if mi, ok := c.Args[i].(*ssa.MakeInterface); ok {
@@ -112,4 +118,50 @@ func (fc *FnCtx) oneGuard(st *State, g *Guard, vals map[string]Val, typs map[str
 		name = fmt.Sprintf("%s#guard#%s:%s[%s]@%d", fc.fnName(), g.Kind, g.Target, g.Cond.Label, ord)
 	}
 	fc.oblige(st, "guard", name, goal, fc.eng.pos(fc.curInstr.Pos()), "guard "+g.Kind+" "+g.Target+": "+g.Cond.Text)
+}
+
+// callTargets: the names under which a call site can be referred to in guards and called("...")
+func callTargets(c *ssa.CallCommon) []string {
+	if c.IsInvoke() {
+		return []string{"(" + shortCallee(typeName(c.Value.Type())) + ")." + c.Method.Name(), c.Method.Name()}
+	}
+	switch v := c.Value.(type) {
+	case *ssa.Function:
+		n := v.String()
+		if v.Origin() != nil {
+			n = v.Origin().String()
+		}
+		return []string{shortCallee(n), v.Name(), reRecvPkg.ReplaceAllString(shortCallee(n), "($1")}
+	case *ssa.MakeClosure:
+		return []string{shortCallee(v.Fn.String())}
+	}
+	return nil
+}
+
+// noteCalled maintains the per-path flags behind called("NAME"): true once a call whose target
+// matches NAME has been executed on the path.
+func (fc *FnCtx) noteCalled(c *ssa.CallCommon, st *State) {
+	if len(fc.calledNames) == 0 || fc.pureMode {
+		return
+	}
+	for _, tgt := range callTargets(c) {
+		for n := range fc.calledNames {
+			if n == tgt || strings.HasSuffix(tgt, "."+n) {
+				fc.heapSet(st, "called:"+n, fc.tb.True())
+			}
+		}
+	}
+}
+
+// calledFlag: value of called("NAME") in state st (false at function entry)
+func (fc *FnCtx) calledFlag(st *State, name string) *Term {
+	if fc.calledNames == nil {
+		fc.calledNames = map[string]bool{}
+	}
+	if !fc.calledNames[name] {
+		fc.calledNames[name] = true
+		fc.newKey = true
+	}
+	fc.hyps = append(fc.hyps, fc.tb.Not(fc.tb.Const("h0!called:"+name, "Bool")))
+	return fc.heapGet(st, "called:"+name, "Bool")
 }
